@@ -200,31 +200,31 @@ func c08FollowUp(r *gen.Rand, m *stun.Message) (c08Use, func(m *stun.Message) st
 		how := r.Intn(3)
 
 		return c08Use{"Decode(outer);decode own DATA value", func(x *stun.Message) error {
-			if err := stun.Decode(outer, x); err != nil {
-				return err
-			}
-			v, err := x.Get(stun.AttrData)
-			if err != nil {
-				return err
-			}
-			switch how {
-			case 0:
-				return stun.Decode(v, x)
-			case 1:
-				_, err = x.Write(v)
+				if err := stun.Decode(outer, x); err != nil {
+					return err
+				}
+				v, err := x.Get(stun.AttrData)
+				if err != nil {
+					return err
+				}
+				switch how {
+				case 0:
+					return stun.Decode(v, x)
+				case 1:
+					_, err = x.Write(v)
 
-				return err
-			default:
-				return x.UnmarshalBinary(v)
-			}
-		}, func() {}}, func(x *stun.Message) string {
-			got := viewOf(x)
-			if d := got.diff(wantView); d != "" {
-				return "the message decoded out of its own DATA attribute differs from a decode of the same bytes held elsewhere: " + d
-			}
+					return err
+				default:
+					return x.UnmarshalBinary(v)
+				}
+			}, func() {}}, func(x *stun.Message) string {
+				got := viewOf(x)
+				if d := got.diff(wantView); d != "" {
+					return "the message decoded out of its own DATA attribute differs from a decode of the same bytes held elsewhere: " + d
+				}
 
-			return ""
-		}
+				return ""
+			}
 	}
 	if r.Bool() {
 		// a retransmission: byte for byte what m.Raw holds, decoded into m after its fields were edited
